@@ -649,6 +649,25 @@ Section WithFloats.
     | Ok rs => Ok (of_rows true 2 (match kp with Some l => filter_obs l rs | None => rs end))
     end.
 
+  (* what is recorded for one 3-D point through one kind of keypoints: the (image, feature) cells of the row whose key
+     is (point3d_id, keypoints_type).  A point is usually seen through several kinds: observations.txt then has
+     several lines with the same point3d_id, and each of them is a row of its own. *)
+  Definition obs_of (pid : cell) (kt : txt) (rows : table) : option row :=
+    match List.find (fun r => key_eqb 2 r [pid; CStr kt]) rows with
+    | Some r => Some (skipn 2 r)
+    | None => None
+    end.
+
+  (* NOT the reader of the code: a reader that stores each line with  observations[point3d_id] = {kind: pairs}
+     (dict keyed by the point id alone, a later line of the same point replaces the earlier one).  Kept to show
+     that the round-trip theorems depend on the key being the PAIR (point3d_id, keypoints_type):
+     [C01_obs_point_keyed_refuted]. *)
+  Definition read_obs_point_keyed (t : txt) : result table :=
+    match read_rows fk_obs (table_of_text t) with
+    | Err => Err
+    | Ok rs => Ok (of_rows false 1 rs)
+    end.
+
   Definition opt_bind {A B} (o : option A) (f : A -> result (option B)) : result (option B) :=
     match o with None => Ok None | Some a => f a end.
 
